@@ -2,7 +2,9 @@
 //! arguments, calls cx_marker_begin(), runs exactly the library operation, calls cx_marker_end()
 //! and prints the result.  Everything secret-dependent happens between the two markers.
 use crate::util::*;
+use cryptoxide::chacha20::{ChaCha, ChaChaOriginal, XChaCha};
 use cryptoxide::mac::Mac;
+use cryptoxide::salsa20::{Salsa, XSalsa};
 use std::hint::black_box;
 
 #[no_mangle]
@@ -24,6 +26,24 @@ macro_rules! traced {
         r
     }};
 }
+
+// one traced `new(key, nonce); process_mut(data)` per stream-cipher context type, generic in the round count
+macro_rules! stream_enc {
+    ($fname:ident, $ty:ident, $mk:expr) => {
+        fn $fname<const R: usize>(k: &[u8], nonce: &[u8], data: &mut [u8]) {
+            let mk: fn(&[u8], &[u8]) -> $ty<R> = $mk;
+            traced!({
+                let mut c = mk(black_box(k), nonce);
+                c.process_mut(black_box(data));
+            });
+        }
+    };
+}
+stream_enc!(enc_chacha, ChaCha, |k, n| ChaCha::<R>::new(k, &arr::<12>(n)));
+stream_enc!(enc_xchacha, XChaCha, |k, n| XChaCha::<R>::new(&arr::<32>(k), &arr::<24>(n)));
+stream_enc!(enc_chachaorig, ChaChaOriginal, |k, n| ChaChaOriginal::<R>::new(k, &arr::<8>(n)));
+stream_enc!(enc_salsa, Salsa, |k, n| Salsa::<R>::new(k, &arr::<8>(n)));
+stream_enc!(enc_xsalsa, XSalsa, |k, n| XSalsa::<R>::new(&arr::<32>(k), &arr::<24>(n)));
 
 /// a[..]: op-specific. Secrets are always the LAST arguments.
 pub fn run(op: &str, a: &[&str]) -> Option<String> {
@@ -127,6 +147,93 @@ pub fn run(op: &str, a: &[&str]) -> Option<String> {
                 c.process_mut(black_box(&mut data));
             });
             hex(&data)
+        }
+        // stream.enc <variant> <rounds> <nonce public> <len public> <key secret> <plaintext secret>
+        //   variant: chacha (nonce 12, key 16|32) | xchacha (nonce 24, key 32) | chachaorig (nonce 8) | salsa (nonce 8, key 16|32)
+        //            | xsalsa (nonce 24, key 32); rounds 8 | 12 | 20.  Key length is public.
+        "stream.enc" => {
+            let (variant, rounds) = (a[0], us(a[1]));
+            let nonce = unhex(a[2]);
+            let k = unhex(a[4]);
+            let mut data = unhex(a[5]);
+            assert!(data.len() == us(a[3]));
+            macro_rules! rounds {
+                ($f:ident) => {
+                    match rounds {
+                        8 => $f::<8>(&k, &nonce, &mut data),
+                        12 => $f::<12>(&k, &nonce, &mut data),
+                        20 => $f::<20>(&k, &nonce, &mut data),
+                        _ => return Some("bad-args".into()),
+                    }
+                };
+            }
+            match variant {
+                "chacha" => rounds!(enc_chacha),
+                "xchacha" => rounds!(enc_xchacha),
+                "chachaorig" => rounds!(enc_chachaorig),
+                "salsa" => rounds!(enc_salsa),
+                "xsalsa" => rounds!(enc_xsalsa),
+                _ => return Some("bad-args".into()),
+            }
+            hex(&data)
+        }
+        // hmac.<digest> <msg public> <key secret>   (key length is public): sha1, sha3_256, blake2b (HMAC over the legacy
+        // Blake2b digest object, 64-byte output)
+        "hmac.sha1" => {
+            let msg = unhex(a[0]);
+            let k = unhex(a[1]);
+            let mut out = [0u8; 20];
+            traced!({
+                let mut h = cryptoxide::hmac::Hmac::new(cryptoxide::sha1::Sha1::new(), black_box(&k));
+                h.input(black_box(&msg));
+                h.raw_result(&mut out);
+            });
+            hex(&out)
+        }
+        "hmac.sha3_256" => {
+            let msg = unhex(a[0]);
+            let k = unhex(a[1]);
+            let mut out = [0u8; 32];
+            traced!({
+                let mut h = cryptoxide::hmac::Hmac::new(cryptoxide::sha3::Sha3_256::new(), black_box(&k));
+                h.input(black_box(&msg));
+                h.raw_result(&mut out);
+            });
+            hex(&out)
+        }
+        "hmac.blake2b" => {
+            let msg = unhex(a[0]);
+            let k = unhex(a[1]);
+            let mut out = [0u8; 64];
+            traced!({
+                let mut h = cryptoxide::hmac::Hmac::new(cryptoxide::blake2b::Blake2b::new(64), black_box(&k));
+                h.input(black_box(&msg));
+                h.raw_result(&mut out);
+            });
+            hex(&out)
+        }
+        // blake2b.mac / blake2s.mac <msg public> <key secret>: the keyed BLAKE2 as a MAC (key length public, 1..=64 / 1..=32)
+        "blake2b.mac" => {
+            let msg = unhex(a[0]);
+            let k = unhex(a[1]);
+            let mut out = [0u8; 64];
+            traced!({
+                let mut h = cryptoxide::blake2b::Blake2b::new_keyed(64, black_box(&k));
+                Mac::input(&mut h, black_box(&msg));
+                Mac::raw_result(&mut h, &mut out);
+            });
+            hex(&out)
+        }
+        "blake2s.mac" => {
+            let msg = unhex(a[0]);
+            let k = unhex(a[1]);
+            let mut out = [0u8; 32];
+            traced!({
+                let mut h = cryptoxide::blake2s::Blake2s::new_keyed(32, black_box(&k));
+                Mac::input(&mut h, black_box(&msg));
+                Mac::raw_result(&mut h, &mut out);
+            });
+            hex(&out)
         }
         // macresult.eq <expected> <candidate secret>   (both secret in practice; lengths public)
         "macresult.eq" => {
